@@ -68,7 +68,7 @@ PROPS["C04"] = {
     "replay_hint": "exec the described def under the named interpreter; compare CodeData.from_code(f.__code__).type with inspect.signature(f), f.__doc__",
 }
 
-VIEW_IMPORTS = DATA_IMPORTS + " Spec.Lnotab Spec.Dis Model.ViewSer"
+VIEW_IMPORTS = DATA_IMPORTS + " Spec.Lnotab Spec.Dis Model.ViewSer Proofs.C02_Statements"
 PROPS["C13"] = {
     "imports": VIEW_IMPORTS,
     "prelude": "Definition cfg := Cfg{TAG}.cfg.",
@@ -90,6 +90,19 @@ PROPS["C02"] = {
     "assumptions": ["compiled code: operands below 2^31, EXTENDED_ARG only in front of opcodes with an argument"],
     "rule": "every code object of the corpus and of generated programs; distinct = distinct (co_code, name, firstlineno, line table)",
     "replay_hint": "compile the named source; compare CodeData.from_code(c).blocks flattened with dis.get_instructions(c) and co_lines()/PyCode_Addr2Line",
+    "claimed": False,
+}
+
+JSON_IMPORTS = DATA_IMPORTS + " Model.Json Model.JsonSer"
+PROPS["C07"] = {
+    "imports": JSON_IMPORTS,
+    "prelude": "Definition cfg := Cfg{TAG}.cfg.",
+    "level_text": "TODO", "level_note": "TODO",
+    "trusted_base": COMMON_TB + ["text layer of json/orjson, repr/ast.literal_eval and base64 are outside the model (identity stand-ins, canonicalised by the harness; their round trip is exercised by the oracle)"],
+    "assumptions": ["repr/literal_eval and base64 round-trip", "json.dumps/json.loads preserve the type and value of ints, finite floats, strings, lists, dicts"],
+    "rule": "every constant kind x every position (operand, default, tuple member, frozenset member, dead-code additional arg, docstring, class docstring), lone surrogates in every string position, "
+            "corpus and generated programs, decoded and normalized; distinct = distinct (origin, hash of data)",
+    "replay_hint": "compile the described source; d = CodeData.from_code(c); CodeData.from_json_data(json.loads(json.dumps(d.to_json_data(), allow_nan=False)))",
     "claimed": False,
 }
 
